@@ -7,6 +7,7 @@ INVARIANT HolderOnly
 INVARIANT Contiguous
 INVARIANT OnceInOrder
 INVARIANT Released
+INVARIANT ReleasedCount
 INVARIANT FaultsSurface
 INVARIANT EndState
 CHECK_DEADLOCK FALSE
